@@ -4,8 +4,11 @@
   `Proofs/C01/Run.lean` proves, for an arbitrary interpretation `V` of the calls, that row k is `Broker.get_account_status` of the world
   left by exactly the calls before it.  `Demeter/Actuator/Markets.lean` gives a concrete `V` (`marketsValuation`): the world is the
   wallet plus a Uniswap LP market (`Demeter.Uni`), the oSQTH/WETH pool and the Squeeth market (`Demeter.Squeeth`, one shared positions
-  container); a call does what those models' `step` / `update` / `set_market_status` do.  Here the per-market theorems are composed with
-  the broker sum:
+  container), a GMX v1 market (`Demeter.GmxV1`) and a Deribit option market (`Demeter.Deribit`); a call does what those models'
+  `step` / `update` / `set_market_status` / `get_market_balance` (cache) do.  Here the per-market theorems (`C01_uni_balance_eq_spec`,
+  `C01_squeeth_balance_from_raw_state` + the value-level once equation, `C01_gmx_v1_balance`, `C01_deribit_open_bar_value`) are
+  composed with the broker sum (`C01_broker_reported_eq_spec`).  Not composed: Aave (its reported value is quantised to 1e-4, an
+  inequality) and GMX v2 (float valuation):
 
     net value of row k  =  Σ wallet·price  +  conv₀ · Σ_{free positions of market 0} value
                           +  conv₁ · Σ_{free positions of the oSQTH/WETH pool} value at the pool price
